@@ -41,10 +41,13 @@ theorem AfterB.ends {d : Nat} {a : Option Token} {rest : List Token} (h : AfterB
 /-- token types a statement can start with -/
 def stmtHeads : List Nat :=
   [cTypeIdentifier, cTypeString, cTypeStmtQuoteL, cTypeDeclareW, cTypeCondW, cTypeFuncW, cTypeReturnW, cTypeWhileLoopW,
-   cTypeVarOneW, cTypeIteratorW, cTypeObjDefineW, cTypeThrowErrorW, cTypeBreakW, cTypeContinueW]
+   cTypeVarOneW, cTypeIteratorW, cTypeObjDefineW, cTypeThrowErrorW, cTypeBreakW, cTypeContinueW,
+   cTypeArrayQuoteL, cTypeFuncQuoteL, cTypeObjThisW, cTypeStmtSep]
 
 theorem stmtHeads_spec : ∀ ty ∈ stmtHeads, ty ≠ cTypeEOF ∧ ty ≠ cTypeCommaSep ∧ ty ≠ cTypeComment ∧ ty ∉ condKeywords ∧
-    ty ≠ cTypeCatchErrorW ∧ ty ≠ cTypeInputW ∧ ty ≠ cTypeImportW ∧ ty ≠ cTypeStmtSep := by decide
+    ty ≠ cTypeCatchErrorW ∧ ty ≠ cTypeInputW ∧ ty ≠ cTypeImportW := by decide
+
+theorem exprHeads_stmtHeads : ∀ ty ∈ exprHeads, ty ∈ stmtHeads ∧ (ty ≠ cTypeVarOneW → ty ∉ stmtValidTypes) := by decide
 
 -- ---- fuel ----------------------------------------------------------------------------------------------------------------
 
@@ -93,22 +96,44 @@ theorem pStatement_eq {σ : Type} (v : Variant) (ops : LexOps σ) (fuel : Nat) (
         endOfStmt v
         pure (.expr e)) := rfl
 
+/-- a statement is complete when the flag is set or a `；` (or the end of input) follows -/
+theorem endOfStmt_fin (a : Option Token) (rest : List Token) (fl : Bool)
+    (h : fl = true ∨ (Y.peek rest).type = cTypeStmtSep) :
+    (endOfStmt v : PM (List Token) Unit) (S Y a rest fl) = .ok () (S Y a rest fl) := by
+  unfold endOfStmt
+  rcases h with h | h
+  · simp [S, h]
+  · have : meetStmtBreak (S Y a rest fl) = true := by
+      unfold meetStmtBreak
+      have : (S Y a rest fl).p2.type = cTypeStmtSep := h
+      simp [this]
+    simp [this]
+
 /-- a statement that starts with a keyword: the keyword's production runs on the state after the keyword, the statement must be
-complete afterwards, the node gets the keyword's line -/
-theorem statement_kw (m : Nat) (p1 : Option Token) (fl : Bool) (kw : Token) (r : List Token) (st : Stmt)
-    (a : Option Token) (rest' : List Token)
+complete afterwards (flag set, or a `；` next), the node gets the keyword's line -/
+theorem statement_kw' (m : Nat) (p1 : Option Token) (fl : Bool) (kw : Token) (r : List Token) (st : Stmt)
+    (a : Option Token) (rest' : List Token) (fl' : Bool)
     (hkw : kw.type ∈ stmtValidTypes) (hns : kw.type ≠ cTypeStmtSep) (ho : Y.InOrder (kw :: r))
+    (hfin : fl' = true ∨ (Y.peek rest').type = cTypeStmtSep)
     (hB : stmtBody v (layoutOps Y) (m + 1) (parse v (layoutOps Y) (m + 1)) kw
-            (S Y (some kw) r (Y.brk kw (Y.peek r))) = .ok st (S Y a rest' true)) :
-    parse v (layoutOps Y) (m + 2) .statement (S Y p1 (kw :: r) fl) = .ok (st.setLine (Y.sl kw)) (S Y a rest' true) := by
+            (S Y (some kw) r (Y.brk kw (Y.peek r))) = .ok st (S Y a rest' fl')) :
+    parse v (layoutOps Y) (m + 2) .statement (S Y p1 (kw :: r) fl) = .ok (st.setLine (Y.sl kw)) (S Y a rest' fl') := by
   show pStatement v (layoutOps Y) (m + 1) _ _ = _
   rw [pStatement_eq]
   have hnc : kw.type ≠ cTypeCommaSep := by
     intro h; rw [h] at hkw; revert hkw; decide
   rw [bind_ok (unsetFlag_S p1 (kw :: r) fl), bind_ok (tryConsume_hit m _ p1 kw r hkw hnc ho)]
   simp only [hns, if_false]
-  rw [bind_ok hB, bind_ok (lineOf_S kw _), bind_ok (endOfStmt_flag a rest')]
+  rw [bind_ok hB, bind_ok (lineOf_S kw _), bind_ok (endOfStmt_fin a rest' fl' hfin)]
   rfl
+
+theorem statement_kw (m : Nat) (p1 : Option Token) (fl : Bool) (kw : Token) (r : List Token) (st : Stmt)
+    (a : Option Token) (rest' : List Token)
+    (hkw : kw.type ∈ stmtValidTypes) (hns : kw.type ≠ cTypeStmtSep) (ho : Y.InOrder (kw :: r))
+    (hB : stmtBody v (layoutOps Y) (m + 1) (parse v (layoutOps Y) (m + 1)) kw
+            (S Y (some kw) r (Y.brk kw (Y.peek r))) = .ok st (S Y a rest' true)) :
+    parse v (layoutOps Y) (m + 2) .statement (S Y p1 (kw :: r) fl) = .ok (st.setLine (Y.sl kw)) (S Y a rest' true) :=
+  statement_kw' m p1 fl kw r st a rest' true hkw hns ho (Or.inl rfl) hB
 
 section bodies
 variable (v : Variant) (ops : LexOps (List Token)) (fuel : Nat) (rec : Rec (List Token)) (tk : Token)
@@ -160,6 +185,26 @@ structure StmtFacts (Y : Layout) (ts : List Token) : Prop where
 theorem After.send {d : Nat} {ts rest : List Token} (h : After Y d ts.getLast? rest) :
     Send Y ts rest = S Y ts.getLast? rest true := by
   unfold Send; rw [h.brk]
+
+/-- what follows a simple statement: not a comma; a statement line break, or a `；` -/
+structure AfterS (Y : Layout) (a : Option Token) (rest : List Token) : Prop where
+  nc : (Y.peek rest).type ≠ cTypeCommaSep
+  fin : Y.jf a (Y.peek rest) = true ∨ (Y.peek rest).type = cTypeStmtSep
+
+theorem After.toS {d : Nat} {a : Option Token} {rest : List Token} (h : After Y d a rest) : AfterS Y a rest := ⟨h.nc, Or.inl h.brk⟩
+
+theorem AfterS.stop {ts rest : List Token} (h : AfterS Y ts.getLast? rest) (F : List Nat) (hF : cTypeStmtSep ∉ F) :
+    Stop Y F ts rest := ⟨h.nc, h.fin.imp id (fun h' => by rw [h']; exact hF)⟩
+
+/-- `ParseStatement` on a rendering of a simple statement `s`, followed by a statement line break or a `；` -/
+def CSimple (v : Variant) (Y : Layout) (s : Stmt) (ts : List Token) : Prop :=
+  ∀ p1 rest fl, Y.InOrder (ts ++ rest) → AfterS Y ts.getLast? rest →
+    Stable v Y .statement (S Y p1 (ts ++ rest) fl) (.ok s (S Y ts.getLast? rest (Y.jf ts.getLast? (Y.peek rest)))) (fS ts)
+
+theorem CSimple.toCStmt {d : Nat} {s : Stmt} {ts : List Token} (h : CSimple v Y s ts) : CStmt v Y d s ts := by
+  intro p1 rest fl ho ha
+  have := h p1 rest fl ho ha.toS
+  rwa [ha.brk] at this
 
 -- ---- identifier lists, argument lists -----------------------------------------------------------------------------------
 
@@ -236,14 +281,14 @@ theorem bind_ok2 {α β γ : Type} {x : PM (List Token) α} {f : α → PM (List
   | fuel => rw [hx] at h'; cases h'
 
 theorem linArgs_facts {es : List Expr} {ts : List Token} (h : LinArgs Y es ts) :
-    ts ≠ [] ∧ (Y.peek ts).type ∈ [cTypeIdentifier, cTypeString, cTypeStmtQuoteL] := by
+    ts ≠ [] ∧ (Y.peek ts).type ∈ exprHeads := by
   cases h with
-  | one e ts h => exact ⟨(linE_facts h).1, (linE_facts h).2.2⟩
-  | cons p e te es ts h hp hr =>
+  | one e ts h => exact ⟨(linE_facts h).1, (linE_facts h).2⟩
+  | cons p e te es ts h _ hp hr =>
     have hf := linE_facts h
-    exact ⟨by simp [hf.1], by rw [peek_append hf.1]; exact hf.2.2⟩
+    exact ⟨by simp [hf.1], by rw [peek_append hf.1]; exact hf.2⟩
 
-theorem pauseComma_not_F1 : cTypePauseCommaSep ∉ F1 := by decide
+theorem pauseComma_not_B1 : cTypePauseCommaSep ∉ B1 true := by decide
 
 /-- the argument list of 抛出: the first expression, then `{ 、 expression }` -/
 theorem args_roundtrip {es : List Expr} {ts : List Token} (h : LinArgs Y es ts) :
@@ -263,15 +308,17 @@ theorem args_roundtrip {es : List Expr} {ts : List Token} (h : LinArgs Y es ts) 
     unfold pThrowLoop Send
     rw [bind_ok (tryConsume_miss m _ _ rest _ (hs.2.imp id (fun h' hm => h' (by simp at hm; simp [hm]))) hs.1)]
     rfl
-  | cons p e te es ts h hp hr ih =>
+  | cons p e te es ts h hopen hp hr ih =>
     intro p1 rest acc hg ho hs n hn
     have hf := linE_facts h
     have hne := (linArgs_facts hr).1
     have hpc : p.type ≠ cTypeCommaSep := by rw [hp]; decide
     have ho1 : Y.InOrder (te ++ p :: (ts ++ rest)) := by simpa [List.append_assoc] using ho
-    have hs1 : Stop Y F1 te (p :: (ts ++ rest)) := ⟨hpc, Or.inr (by show p.type ∉ F1; rw [hp]; exact pauseComma_not_F1)⟩
+    have hFO : FO e = [] := by unfold FO; simp [hopen]
+    have hs1 : Stop Y (B1 true ++ FO e) te (p :: (ts ++ rest)) :=
+      ⟨hpc, Or.inr (by show p.type ∉ _; rw [hFO, List.append_nil, hp]; exact pauseComma_not_B1)⟩
     have e0 : (te ++ p :: ts) ++ rest = te ++ p :: (ts ++ rest) := by simp
-    rw [e0, bind_ok (expr_roundtrip (v := v) h (glued_take te hg) p1 _ ho1 hs1 n
+    rw [e0, bind_ok (expr_roundtrip_open (v := v) h (glued_take te hg) p1 _ ho1 hs1 n
       (by simp only [List.length_append, List.length_cons] at hn; omega))]
     obtain ⟨m, rfl⟩ : ∃ m, n = m + 2 := ⟨n - 2, by omega⟩
     show pThrowLoop (layoutOps Y) (m + 1) _ _ _ = _
@@ -300,74 +347,66 @@ theorem args_roundtrip {es : List Expr} {ts : List Token} (h : LinArgs Y es ts) 
 
 theorem head_of_expr {e : Expr} {ts : List Token} (h : LinE Y 1 e ts) : StmtFacts Y ts := by
   have hf := linE_facts h
-  refine ⟨hf.1, ?_⟩
-  have := hf.2.2
-  simp only [List.mem_cons, List.not_mem_nil, or_false] at this
-  rcases this with h | h | h <;> rw [h] <;> decide
+  exact ⟨hf.1, (exprHeads_stmtHeads _ hf.2).1⟩
 
 /-- the expression statement -/
-theorem stmt_expr {d : Nat} {e : Expr} {ts : List Token} (h : LinE Y 1 e ts) (hg : Y.Glued ts) : CStmt v Y d (.expr e) ts := by
+theorem stmt_expr {e : Expr} {ts : List Token} (h : LinE Y 1 e ts) (hg : Y.Glued ts) (h1 : (Y.peek ts).type ≠ cTypeVarOneW) :
+    CSimple v Y (.expr e) ts := by
   intro p1 rest fl ho ha n' hn
   obtain ⟨m, rfl⟩ : ∃ m, n' = m + 1 := ⟨n' - 1, by unfold fS at hn; omega⟩
   show pStatement v (layoutOps Y) m _ _ = _
   rw [pStatement_eq]
   have hf := linE_facts h
-  have hp : (Y.peek (ts ++ rest)).type ∈ [cTypeIdentifier, cTypeString, cTypeStmtQuoteL] := by
-    rw [peek_append hf.1]; exact hf.2.2
+  have hpk : Y.peek (ts ++ rest) = Y.peek ts := peek_append hf.1 rest
   have hn1 : (Y.peek (ts ++ rest)).type ∉ stmtValidTypes ∧ (Y.peek (ts ++ rest)).type ≠ cTypeCommaSep := by
-    simp only [List.mem_cons, List.not_mem_nil, or_false] at hp
-    rcases hp with h | h | h <;> rw [h] <;> decide
+    rw [hpk]; exact ⟨(exprHeads_stmtHeads _ hf.2).2 h1, (exprHeads_spec _ hf.2).2.1⟩
   rw [bind_ok (unsetFlag_S p1 _ fl), bind_ok (tryConsume_miss m _ p1 _ false (Or.inr hn1.1) hn1.2)]
   show (parse v (layoutOps Y) m (.expr true) >>= _) _ = _
-  rw [bind_ok (expr_roundtrip (v := v) h hg p1 rest ho (stop_of_after F1 ha) m (by unfold fS at hn; omega)), ha.send,
-    bind_ok (endOfStmt_flag _ rest)]
+  rw [bind_ok (expr_roundtrip (v := v) h hg p1 rest ho (ha.stop F1 (by decide)) m (by unfold fS at hn; omega))]
+  unfold Send
+  rw [bind_ok (endOfStmt_fin _ rest _ ha.fin)]
   rfl
 
 /-- 结束循环 -/
-theorem stmt_break {d : Nat} {kw : Token} (hk : kw.type = cTypeBreakW) : CStmt v Y d (.break (Y.sl kw)) [kw] := by
+theorem stmt_break {kw : Token} (hk : kw.type = cTypeBreakW) : CSimple v Y (.break (Y.sl kw)) [kw] := by
   intro p1 rest fl ho ha n' hn
   obtain ⟨m, rfl⟩ : ∃ m, n' = m + 2 := ⟨n' - 2, by unfold fS at hn; omega⟩
-  have := statement_kw (Y := Y) (v := v) m p1 fl kw rest (.break 0) (some kw) rest (by rw [hk]; decide) (by rw [hk]; decide) ho
-    (by rw [stmtBody_break _ _ _ _ _ hk]
-        have : Y.brk kw (Y.peek rest) = true := ha.brk
-        rw [this]; rfl)
-  exact this
+  exact statement_kw' (Y := Y) (v := v) m p1 fl kw rest (.break 0) (some kw) rest _ (by rw [hk]; decide) (by rw [hk]; decide) ho
+    ha.fin (by rw [stmtBody_break _ _ _ _ _ hk]; rfl)
 
 /-- 继续循环 -/
-theorem stmt_continue {d : Nat} {kw : Token} (hk : kw.type = cTypeContinueW) : CStmt v Y d (.continue (Y.sl kw)) [kw] := by
+theorem stmt_continue {kw : Token} (hk : kw.type = cTypeContinueW) : CSimple v Y (.continue (Y.sl kw)) [kw] := by
   intro p1 rest fl ho ha n' hn
   obtain ⟨m, rfl⟩ : ∃ m, n' = m + 2 := ⟨n' - 2, by unfold fS at hn; omega⟩
-  have := statement_kw (Y := Y) (v := v) m p1 fl kw rest (.continue 0) (some kw) rest (by rw [hk]; decide) (by rw [hk]; decide) ho
-    (by rw [stmtBody_continue _ _ _ _ _ hk]
-        have : Y.brk kw (Y.peek rest) = true := ha.brk
-        rw [this]; rfl)
-  exact this
+  exact statement_kw' (Y := Y) (v := v) m p1 fl kw rest (.continue 0) (some kw) rest _ (by rw [hk]; decide) (by rw [hk]; decide) ho
+    ha.fin (by rw [stmtBody_continue _ _ _ _ _ hk]; rfl)
 
 /-- 输出 e -/
-theorem stmt_ret {d : Nat} {kw : Token} {e : Expr} {te : List Token} (hk : kw.type = cTypeReturnW) (h : LinE Y 1 e te)
-    (hg : Y.Glued (kw :: te)) : CStmt v Y d (.ret (Y.sl kw) e) (kw :: te) := by
+theorem stmt_ret {kw : Token} {e : Expr} {te : List Token} (hk : kw.type = cTypeReturnW) (h : LinE Y 1 e te)
+    (hg : Y.Glued (kw :: te)) : CSimple v Y (.ret (Y.sl kw) e) (kw :: te) := by
   intro p1 rest fl ho ha n' hn
   obtain ⟨m, rfl⟩ : ∃ m, n' = m + 2 := ⟨n' - 2, by unfold fS at hn; omega⟩
   have hf := linE_facts h
   have el : (kw :: te).getLast? = te.getLast? := getLast?_append_ne [kw] hf.1
   rw [el] at ha ⊢
   have ho' : Y.InOrder (kw :: (te ++ rest)) := ho
-  refine statement_kw (Y := Y) (v := v) m p1 fl kw (te ++ rest) (.ret 0 e) _ rest (by rw [hk]; decide) (by rw [hk]; decide) ho' ?_
+  refine statement_kw' (Y := Y) (v := v) m p1 fl kw (te ++ rest) (.ret 0 e) _ rest _ (by rw [hk]; decide) (by rw [hk]; decide) ho'
+    ha.fin ?_
   rw [stmtBody_ret _ _ _ _ _ hk]
   have hb : Y.brk kw (Y.peek (te ++ rest)) = false := by
     rw [peek_append hf.1]
     cases te with
     | nil => exact absurd rfl hf.1
     | cons u r => exact glued_head hg
-  rw [hb, bind_ok (expr_roundtrip (v := v) h (glued_tail hg) (some kw) rest (inOrder_tail ho') (stop_of_after F1 ha) (m + 1)
-    (by unfold fS at hn; simp only [List.length_cons] at hn; omega)), ha.send]
+  rw [hb, bind_ok (expr_roundtrip (v := v) h (glued_tail hg) (some kw) rest (inOrder_tail ho') (ha.stop F1 (by decide)) (m + 1)
+    (by unfold fS at hn; simp only [List.length_cons] at hn; omega))]
   rfl
 
 /-- 令 a、b 设为 e -/
-theorem stmt_decl {d : Nat} {kw asg : Token} {ids : List Ident} {ti : List Token} {e : Expr} {te : List Token}
+theorem stmt_decl {kw asg : Token} {ids : List Ident} {ti : List Token} {e : Expr} {te : List Token}
     (hk : kw.type = cTypeDeclareW) (hi : LinIds Y ids ti) (hasg : asg.type ∈ vdAssignKeywords) (h : LinE Y 1 e te)
     (hg : Y.Glued (kw :: ti ++ asg :: te)) :
-    CStmt v Y d (.varDecl (Y.sl kw) [(vdTypeOf asg, ids, e)]) (kw :: ti ++ asg :: te) := by
+    CSimple v Y (.varDecl (Y.sl kw) [(vdTypeOf asg, ids, e)]) (kw :: ti ++ asg :: te) := by
   intro p1 rest fl ho ha n' hn
   obtain ⟨m, rfl⟩ : ∃ m, n' = m + 4 := ⟨n' - 4, by unfold fS at hn; omega⟩
   have hf := linE_facts h
@@ -382,8 +421,8 @@ theorem stmt_decl {d : Nat} {kw asg : Token} {ids : List Ident} {ti : List Token
     intro hh; rw [hh] at hasg; revert hasg; decide
   have hasgp : asg.type ∉ [cTypePauseCommaSep] := by
     intro hh; simp only [List.mem_cons, List.not_mem_nil, or_false] at hh; rw [hh] at hasg; revert hasg; decide
-  refine statement_kw (Y := Y) (v := v) (m + 2) p1 fl kw _ (.varDecl 0 [(vdTypeOf asg, ids, e)]) _ rest (by rw [hk]; decide)
-    (by rw [hk]; decide) ho ?_
+  refine statement_kw' (Y := Y) (v := v) (m + 2) p1 fl kw _ (.varDecl 0 [(vdTypeOf asg, ids, e)]) _ rest _ (by rw [hk]; decide)
+    (by rw [hk]; decide) ho ha.fin ?_
   rw [stmtBody_decl _ _ _ _ _ hk]
   have hg1 : Y.Glued (kw :: (ti ++ asg :: te)) := hg
   have hb : Y.brk kw (Y.peek (ti ++ asg :: (te ++ rest))) = false := by
@@ -398,7 +437,7 @@ theorem stmt_decl {d : Nat} {kw asg : Token} {ids : List Ident} {ti : List Token
   rw [bind_ok (tryConsume_miss (m + 2) _ _ _ false (Or.inr (by rw [hpk]; decide)) (by rw [hpk]; decide))]
   show (parse v (layoutOps Y) (m + 2) .vdPair >>= _) _ = _
   have hpair : parse v (layoutOps Y) (m + 2) .vdPair (S Y (some kw) (ti ++ asg :: (te ++ rest)) false) =
-      .ok (vdTypeOf asg, ids, e) (S Y te.getLast? rest true) := by
+      .ok (vdTypeOf asg, ids, e) (S Y te.getLast? rest (Y.jf te.getLast? (Y.peek rest))) := by
     show pVdPair v (layoutOps Y) (m + 1) _ _ = _
     unfold pVdPair
     have hgi : Y.Glued (ti ++ asg :: te) := glued_tail hg1
@@ -419,17 +458,17 @@ theorem stmt_decl {d : Nat} {kw asg : Token} {ids : List Ident} {ti : List Token
       cases te with
       | nil => exact absurd rfl hf.1
       | cons u r => exact glued_head this
-    rw [hb2, bind_ok (expr_roundtrip (v := v) h (glued_tail (glued_drop ti hgi)) (some asg) rest (inOrder_tail hoa) (stop_of_after F1 ha)
-      (m + 1) (by unfold fS at hn; simp only [List.length_cons, List.length_append] at hn; omega)), ha.send]
+    rw [hb2, bind_ok (expr_roundtrip (v := v) h (glued_tail (glued_drop ti hgi)) (some asg) rest (inOrder_tail hoa) (ha.stop F1 (by decide))
+      (m + 1) (by unfold fS at hn; simp only [List.length_cons, List.length_append] at hn; omega))]
     rfl
   rw [bind_ok hpair]
   rfl
 
 /-- 抛出 类：e1、e2！ -/
-theorem stmt_throw {d : Nat} {kw cls colon bang : Token} {es : List Expr} {tes : List Token}
+theorem stmt_throw {kw cls colon bang : Token} {es : List Expr} {tes : List Token}
     (hk : kw.type = cTypeThrowErrorW) (hcls : cls.type = cTypeIdentifier) (hcol : colon.type = cTypeFuncCall)
     (hes : LinArgs Y es tes) (hbang : bang.type = cTypeExceptionT) (hg : Y.Glued (kw :: cls :: colon :: tes ++ [bang])) :
-    CStmt v Y d (.throw (Y.sl kw) (some (Y.idOf cls)) es) (kw :: cls :: colon :: tes ++ [bang]) := by
+    CSimple v Y (.throw (Y.sl kw) (some (Y.idOf cls)) es) (kw :: cls :: colon :: tes ++ [bang]) := by
   intro p1 rest fl ho ha n' hn
   obtain ⟨m, rfl⟩ : ∃ m, n' = m + 4 := ⟨n' - 4, by unfold fS at hn; omega⟩
   have hfa := linArgs_facts hes
@@ -440,8 +479,8 @@ theorem stmt_throw {d : Nat} {kw cls colon bang : Token} {es : List Expr} {tes :
   have e0 : (kw :: cls :: colon :: tes ++ [bang]) ++ rest = kw :: cls :: colon :: (tes ++ (bang :: rest)) := by simp
   rw [e0] at ho ⊢
   have hbc : bang.type ≠ cTypeCommaSep := by rw [hbang]; decide
-  refine statement_kw (Y := Y) (v := v) (m + 2) p1 fl kw _ (.throw 0 (some (Y.idOf cls)) es) _ rest (by rw [hk]; decide)
-    (by rw [hk]; decide) ho ?_
+  refine statement_kw' (Y := Y) (v := v) (m + 2) p1 fl kw _ (.throw 0 (some (Y.idOf cls)) es) _ rest _ (by rw [hk]; decide)
+    (by rw [hk]; decide) ho ha.fin ?_
   rw [stmtBody_throw _ _ _ _ _ hk]
   have hb : Y.brk kw (Y.peek (cls :: colon :: (tes ++ bang :: rest))) = false := glued_head hg
   rw [hb]
@@ -478,8 +517,85 @@ theorem stmt_throw {d : Nat} {kw cls colon bang : Token} {es : List Expr} {tes :
   rw [hj]
   have ho3 : Y.InOrder (bang :: rest) := inOrder_drop tes (inOrder_tail ho2)
   rw [bind_ok (consume_hit (m + 1) _ _ bang rest (by simp [hbang]) hbc ho3)]
-  have : Y.brk bang (Y.peek rest) = true := ha.brk
-  rw [this]
   rfl
+
+/-- `以 x（m：a）、（n）`, optionally `得到 X`, as a statement -/
+theorem stmt_mcall {kw l : Token} {root : Expr} {tr : List Token} {n : Ident} {ps : List Expr} {tc : List Token}
+    {cs : List Expr} {tcs : List Token} {yl : Option (Token × Token)} (hk : kw.type = cTypeVarOneW) (hr : LinE Y 1 root tr)
+    (hl : l.type = cTypeFuncQuoteL) (hf : LinX Y true 0 (.fcall n ps) tc) (hc : LinX Y true 0 (.chain cs) tcs) (hy : YieldOK yl)
+    (hg : Y.Glued (kw :: tr ++ l :: tc ++ tcs ++ yieldToks yl)) :
+    CSimple v Y (.expr (.mcall (Y.sl kw) root (.call 0 (some n) ps none :: cs) (Y.yieldId yl)))
+      (kw :: tr ++ l :: tc ++ tcs ++ yieldToks yl) := by
+  intro p1 rest fl ho ha n' hn
+  obtain ⟨m, rfl⟩ : ∃ m, n' = m + 3 := ⟨n' - 3, by unfold fS at hn; omega⟩
+  have hfr := linE_facts hr
+  obtain ⟨⟨hne, _⟩, Cf⟩ := fcall_claim (v := v) hf
+  have Cc := chain_claim (v := v) hc
+  have hlc : l.type ≠ cTypeCommaSep := by rw [hl]; decide
+  have esh : kw :: tr ++ l :: tc ++ tcs ++ yieldToks yl = (kw :: tr) ++ (l :: (tc ++ (tcs ++ yieldToks yl))) := by simp
+  have el : (kw :: tr ++ l :: tc ++ tcs ++ yieldToks yl).getLast? = (l :: (tc ++ tcs) ++ yieldToks yl).getLast? := by
+    rw [esh, getLast?_append_ne _ (by simp)]
+    congr 1; simp
+  have el2 : (tc ++ (tcs ++ (yieldToks yl ++ []))).getLast? = (l :: (tc ++ tcs) ++ yieldToks yl).getLast? := by
+    have : l :: (tc ++ tcs) ++ yieldToks yl = [l] ++ (tc ++ (tcs ++ (yieldToks yl ++ []))) := by simp
+    rw [this, getLast?_append_ne [l] (by intro h; exact hne (List.append_eq_nil_iff.mp h).1)]
+  rw [el] at ha ⊢
+  have e0 : (kw :: tr ++ l :: tc ++ tcs ++ yieldToks yl) ++ rest = kw :: (tr ++ l :: (tc ++ (tcs ++ (yieldToks yl ++ rest)))) := by
+    simp
+  rw [e0] at ho ⊢
+  rw [esh] at hg
+  have hg' : Y.Glued (kw :: (tr ++ l :: (tc ++ (tcs ++ yieldToks yl)))) := hg
+  refine statement_kw' (Y := Y) (v := v) (m + 1) p1 fl kw _
+    (.expr (.mcall 0 root (.call 0 (some n) ps none :: cs) (Y.yieldId yl))) _ rest _ (by rw [hk]; decide) (by rw [hk]; decide) ho
+    ha.fin ?_
+  rw [stmtBody_varOne _ _ _ _ _ hk]
+  have hb : Y.brk kw (Y.peek (tr ++ l :: (tc ++ (tcs ++ (yieldToks yl ++ rest))))) = false := by
+    rw [peek_append hfr.1]
+    cases tr with
+    | nil => exact absurd rfl hfr.1
+    | cons u r => exact glued_head hg'
+  rw [hb]
+  show pVarOneLead v (layoutOps Y) (m + 1) _ _ = _
+  unfold pVarOneLead
+  have ho1 := inOrder_tail ho
+  have hgr : Y.Glued (tr ++ l :: (tc ++ (tcs ++ yieldToks yl))) := glued_tail hg'
+  have hsr : Stop Y F1 tr (l :: (tc ++ (tcs ++ (yieldToks yl ++ rest)))) :=
+    ⟨hlc, Or.inr (by show l.type ∉ F1; rw [hl]; decide)⟩
+  have h1 := expr_roundtrip (v := v) hr (glued_take tr hgr) (some kw) _ ho1 hsr (m + 1)
+    (by unfold fS at hn; simp only [List.length_cons, List.length_append] at hn; omega)
+  show (parse v (layoutOps Y) (m + 1) (.expr true) >>= _) _ = _
+  rw [bind_ok h1, Send_joint tr l _ (glued_joint tr hgr)]
+  have ho2 : Y.InOrder (l :: (tc ++ (tcs ++ (yieldToks yl ++ rest)))) := inOrder_drop tr ho1
+  rw [bind_ok (tryConsume_hit m _ _ l _ (by simp [hl]) hlc ho2)]
+  dsimp only
+  have hn1 : ¬ l.type = cTypeIteratorW := by rw [hl]; decide
+  simp only [hn1, hl, if_false, if_true]
+  have hgl : Y.Glued (l :: (tc ++ (tcs ++ yieldToks yl))) := glued_drop tr hgr
+  have hb2 : Y.brk l (Y.peek (tc ++ (tcs ++ (yieldToks yl ++ rest)))) = false := brk_mid hne (glued_take (l :: tc) hgl) _
+  rw [hb2]
+  have hst : Stop Y [cTypeGetResultW, cTypePauseCommaSep] (tc ++ (tcs ++ (yieldToks yl ++ []))) rest :=
+    (ha.stop _ (by decide)).last el2
+  have := mcall_tail (v := v) (α := Stmt) hne Cf Cc hy l [] (Or.inl rfl) rest (inOrder_tail ho2)
+    (by rw [List.append_nil]; exact hgl) hst m
+    (by unfold fS at hn; unfold fN; simp only [List.length_cons, List.length_append] at hn; omega)
+    (fun chain y => pure (.expr (.mcall 0 root chain y)))
+  refine this.trans ?_
+  rw [ySt_nil]
+  rfl
+
+theorem kwFacts {kw : Token} {r : List Token} (h : kw.type ∈ stmtHeads) : StmtFacts Y (kw :: r) := ⟨by simp, h⟩
+
+/-- every simple statement -/
+theorem linSimple_claim {s : Stmt} {ts : List Token} (h : LinSimple Y s ts) : StmtFacts Y ts ∧ CSimple v Y s ts := by
+  cases h with
+  | exprStmt e ts he hg h1 => exact ⟨head_of_expr he, stmt_expr he hg h1⟩
+  | mcallStmt kw l root tr n ps tc cs tcs yl hk hr hl hf hc hy hg =>
+    exact ⟨kwFacts (by rw [hk]; decide), stmt_mcall hk hr hl hf hc hy hg⟩
+  | declStmt kw asg ids ti e te hk hi hasg he hg => exact ⟨kwFacts (by rw [hk]; decide), stmt_decl hk hi hasg he hg⟩
+  | retStmt kw e te hk he hg => exact ⟨kwFacts (by rw [hk]; decide), stmt_ret hk he hg⟩
+  | throwStmt kw cls colon bang es tes hk hcls hcol hes hbang hg =>
+    exact ⟨kwFacts (by rw [hk]; decide), stmt_throw hk hcls hcol hes hbang hg⟩
+  | breakStmt kw hk => exact ⟨kwFacts (by rw [hk]; decide), stmt_break hk⟩
+  | continueStmt kw hk => exact ⟨kwFacts (by rw [hk]; decide), stmt_continue hk⟩
 
 end ZnVerif.Proofs.StmtRT
